@@ -622,14 +622,22 @@ func (i *Install) replaceRelease(rel *release.Release) error {
 	// Update version to the next available
 	rel.Version = last.Version + 1
 
-	// Do not change the status of a failed release.
-	if last.Info.Status == release.StatusFailed {
+	switch st := last.Info.Status; {
+	case st == release.StatusFailed:
+		// Do not change the status of a failed release.
 		return nil
+	case st == release.StatusUninstalled:
+		// Mark it as superseded and store the old record
+		last.SetStatus(release.StatusSuperseded, "superseded by new release")
+		return i.recordRelease(last)
+	case st.IsPending():
+		// The history changed since the name was checked: another operation
+		// has created a revision and is still working on it.
+		return errPending
+	default:
+		// ... or has finished in the meantime.
+		return errors.New("cannot reuse a name that is still in use")
 	}
-
-	// For any other status, mark it as superseded and store the old record
-	last.SetStatus(release.StatusSuperseded, "superseded by new release")
-	return i.recordRelease(last)
 }
 
 // write the <data> to <output-dir>/<name>. <appendData> controls if the file is created or content will be appended
